@@ -202,9 +202,18 @@ def observe(s):
     probe = 0.37 * d[0] + 0.63 * d[1] if d[0] != d[1] else d[0]
     y1 = s.scale(d[1])                     # both public entry points of the map: scale() and __call__
     y0 = s(d[0])
+    # the inverse of the CURRENT map: the range end points come back as the domain end points (1e-9 of the span)
+    v0 = v1 = 1
+    if r[0] != r[1] and d[0] != d[1]:
+        try:
+            tol = 1e-9 * (abs(d[1] - d[0]) + abs(d[0]) + abs(d[1]))
+            v0 = 1 if abs(s.invert(r[0]) - d[0]) <= tol else 0
+            v1 = 1 if abs(s.invert(r[1]) - d[1]) <= tol else 0
+        except Exception:
+            v0 = v1 = 0
     return {"d": [repr(float(x)) for x in d], "r": [repr(float(x)) for x in r], "c": 1 if s.clamp() else 0,
             "y0": repr(float(y0)), "y1": repr(float(y1)), "yp": repr(float(s.scale(probe))),
-            "e0": 1 if y0 == r[0] else 0, "e1": 1 if y1 == r[1] else 0}
+            "e0": 1 if y0 == r[0] else 0, "e1": 1 if y1 == r[1] else 0, "v0": v0, "v1": v1}
 
 
 def play_hist(h, doms, rngs):
@@ -214,9 +223,10 @@ def play_hist(h, doms, rngs):
         a, i, x = e["a"], e["i"], e["x"]
         s = scales[i - 1]
         if a == "D":
-            s.domain(list(doms[x]))
+            # (any sequence of two numbers is a domain: lists, tuples, ints and floats)
+            s.domain(tuple(doms[x]) if (len(rec["ev"]) + i) % 3 == 0 else list(doms[x]))
         elif a == "R":
-            s.range(list(rngs[x]))
+            s.range(tuple(rngs[x]) if (len(rec["ev"]) + i) % 3 == 1 else list(rngs[x]))
         elif a == "K":
             s.clamp(x == "1")
         elif a == "N":
